@@ -50,3 +50,12 @@ def cfg_signature(case):
         case["field"], case["hash"], o["ext"], d["log_len"], d["width"],
         d["aux"][0]["width"] if d.get("aux") else 0, d["exemptions"], o["blowup"], o["fold"], o["rem"],
         o["queries"], o.get("parts", 1), o.get("hash_rate", 1))
+
+
+def generate_multi(ck, cfgname, name, tags, timeout=900):
+    """One TLC run, several tagged case lists."""
+    r = vf.tlc("MCStarkCfg.tla", cfgname, cwd=SPECDIR, workers=1, timeout=timeout)
+    if not r.ok:
+        raise vf.ToolError("generator %s failed (specification bug): %s" % (cfgname, (r.error or "")[:2000]))
+    ck.add_tlc(name, r)
+    return [r.tagged(t) for t in tags]
